@@ -9,6 +9,7 @@ CONSTANTS
   KeyMode = "small"
   MaxLen = 0
   PPBs <- PPBSmall
-  Picks <- NoPicks
+  NPicks = 0
+  PickAt <- NoPick
 INVARIANTS LWWIsFold CompactLemmas
 CHECK_DEADLOCK FALSE
